@@ -65,12 +65,16 @@ KwVal(call, n) == call.kw[KwValue(call, n)][2]
 (*            "default" stands for an omitted/skipped defaulted parameter] *)
 (***************************************************************************)
 NoBinding == [ok |-> FALSE, pos |-> <<>>, kw |-> {}, vals |-> <<>>, lazy |-> {}, kwok |-> FALSE]
+\* an overload with a defaulted parameter (or a misdeclared one, kwbad) also carries a keyword-only parameter: declared Int (not
+\* null), with a default, written `kwo` by callers (the alias under which the definition publishes it)
+HasKwo(o) == o.kwbad \/ \E i \in 1..Len(o.params) : o.params[i].ty # "hidden" /\ o.params[i].def
 MapArgs(o, call0) ==
     LET call == CallFor(o, call0)
         args == FullArgs(call)
         vis  == Visible(o)
         n    == Len(vis)
-        names == {vis[i].name : i \in 1..n}
+        names == {vis[i].name : i \in 1..n} \cup (IF HasKwo(o) THEN {"kwo"} ELSE {})
+        kwgiven == "kwo" \in KwNames(call)
         given(i) == i <= Len(args) /\ args[i] # "skip"
         \* how each visible parameter gets its value
         how(i) == IF given(i) THEN (IF vis[i].name \in KwNames(call) THEN "clash" ELSE "pos")
@@ -82,10 +86,11 @@ MapArgs(o, call0) ==
                \/ \E i \in (n+1)..Len(args) : args[i] = "skip"                \* (cases generated never skip a *args slot)
     IN IF bad THEN NoBinding
        ELSE [ok |-> TRUE, pos  |-> [i \in 1..Len(args) |-> IF i <= n THEN vis[i].ty ELSE o.star],
-             kw   |-> {<<vis[i].name, vis[i].ty>> : i \in {j \in 1..n : how(j) = "kw"}},
-             \* an overload may carry a keyword-only parameter that no call of the fragment passes: its default is type-checked like
-             \* any other value, so an overload whose default does not fit its own declaration (o.kwbad) never matches
-             kwok |-> ~o.kwbad,
+             kw   |-> {<<vis[i].name, vis[i].ty>> : i \in {j \in 1..n : how(j) = "kw"}}
+                        \cup (IF kwgiven THEN {<<"kwo", "Int">>} ELSE {}),
+             \* the keyword-only parameter's default is type-checked like any other value when the call does not pass the parameter,
+             \* so an overload whose default does not fit its own declaration (o.kwbad) matches only calls that pass it
+             kwok |-> ~o.kwbad \/ kwgiven,
              \* which arguments stay unevaluated: positions (given or skipped) and keywords bound to a lazy parameter
              lazy |-> {<<"p", i>> : i \in {j \in 1..n : j <= Len(args) /\ vis[j].ty = "Lazy"}}
                         \cup {<<"k", vis[i].name>> : i \in {j \in 1..n : how(j) = "kw" /\ vis[j].ty = "Lazy"}},
@@ -95,7 +100,8 @@ MapArgs(o, call0) ==
                       \o [j \in 1..Cardinality({k \in 1..n : how(k) = "kw"}) |->
                             LET ks == {k \in 1..n : how(k) = "kw"}
                                 k == CHOOSE k \in ks : Cardinality({m \in ks : m < k}) = j - 1
-                            IN <<vis[k].ty, KwVal(call, vis[k].name)>>]]
+                            IN <<vis[k].ty, KwVal(call, vis[k].name)>>]
+                      \o (IF kwgiven THEN <<<<"Int", KwVal(call, "kwo")>>>> ELSE <<>>)]
 
 \* Step "filter by argument types" (get_delegate's checked()): defaults always fit
 TypesFit(b) == b.kwok /\ \A i \in 1..Len(b.vals) : b.vals[i][2] = "default" \/ Accepts(b.vals[i][1], b.vals[i][2])
